@@ -519,6 +519,80 @@ OP(box_afternm_shared) {
     c.emit(ct, n + 16); c.emit(v);
 }
 
+OP(aegis_detached) {
+    size_t n = c.in.below(300), al = c.in.below(30); unsigned char *m = c.input(n), *ad = c.input(al), *k = c.input(32), *no = c.input(32), *ct = c.buf(n), *mac = c.buf(32), *d = c.buf(n); unsigned long long ml = 0; int v, v2;
+    { LibScope l; crypto_aead_aegis256_encrypt_detached(ct, mac, &ml, m, n, ad, al, nullptr, no, k); v = crypto_aead_aegis256_decrypt_detached(d, nullptr, ct, n, mac, ad, al, no, k);
+      crypto_aead_aegis128l_encrypt_detached(ct, mac, &ml, m, n, ad, al, nullptr, no, k); v2 = crypto_aead_aegis128l_decrypt_detached(d, nullptr, ct, n, mac, ad, al, no, k); }
+    c.emit(ct, n); c.emit(mac, 16); c.emit(v * 2 + v2);
+}
+OP(xchacha_detached) {
+    size_t n = c.in.below(700); unsigned char *m = c.input(n), *k = c.input(32), *no = c.input(24), *ct = c.buf(n), *mac = c.buf(16), *d = c.buf(n); unsigned long long ml = 0; int v;
+    { LibScope l; crypto_aead_xchacha20poly1305_ietf_encrypt_detached(ct, mac, &ml, m, n, nullptr, 0, nullptr, no, k); v = crypto_aead_xchacha20poly1305_ietf_decrypt_detached(d, nullptr, ct, n, mac, nullptr, 0, no, k); }
+    c.emit(ct, n); c.emit(mac, 16); c.emit(v);
+}
+OP(stream_xor_ic) {
+    size_t n = c.in.below(900); unsigned char *m = c.input(n), *k = c.input(32), *no = c.input(24), *o = c.buf(n), *o2 = c.buf(n), *o3 = c.buf(n); uint64_t ic = c.in.below(1000);
+    { LibScope l; crypto_stream_chacha20_xor_ic(o, m, n, no, ic, k); crypto_stream_chacha20_ietf_xor_ic(o2, m, n, no, (uint32_t) ic, k); crypto_stream_xchacha20_xor_ic(o3, m, n, no, ic, k); }
+    c.emit(o, n); c.emit(o2, n); c.emit(o3, n);
+}
+OP(salsa20_xor_ic) {
+    size_t n = c.in.below(900); unsigned char *m = c.input(n), *k = c.input(32), *no = c.input(24), *o = c.buf(n), *o2 = c.buf(n); uint64_t ic = c.in.below(1000);
+    { LibScope l; crypto_stream_salsa20_xor_ic(o, m, n, no, ic, k); crypto_stream_xsalsa20_xor_ic(o2, m, n, no, ic, k); }
+    c.emit(o, n); c.emit(o2, n);
+}
+OP(box_detached) {
+    size_t n = c.in.below(200); unsigned char *m = c.input(n), *s1 = c.input(32), *no = c.input(24), *pk = c.buf(32), *sk = c.buf(32), *ct = c.buf(n), *mac = c.buf(16), *d = c.buf(n); int v;
+    { LibScope l; crypto_box_seed_keypair(pk, sk, s1); crypto_box_detached(ct, mac, m, n, no, pk, sk); v = crypto_box_open_detached(d, ct, mac, n, no, pk, sk); }
+    c.emit(ct, n); c.emit(mac, 16); c.emit(v);
+}
+OP(sign_ed25519ph) {
+    size_t n = c.in.below(300); unsigned char *m = c.input(n), *seed = c.input(32), *pk = c.buf(32), *sk = c.buf(64), *sig = c.buf(64); int v;
+    crypto_sign_ed25519ph_state *st = (crypto_sign_ed25519ph_state *) c.buf(sizeof(crypto_sign_ed25519ph_state));
+    { LibScope l; crypto_sign_ed25519_seed_keypair(pk, sk, seed); crypto_sign_ed25519ph_init(st); crypto_sign_ed25519ph_update(st, m, n); crypto_sign_ed25519ph_final_create(st, sig, nullptr, sk);
+      crypto_sign_ed25519ph_init(st); crypto_sign_ed25519ph_update(st, m, n); v = crypto_sign_ed25519ph_final_verify(st, sig, pk); }
+    c.emit(sig, 64); c.emit(v);
+}
+OP(ristretto_arith) {
+    unsigned char *h1 = c.input(64), *h2 = c.input(64), *a = c.input(64), *p = c.buf(32), *q = c.buf(32), *r = c.buf(32), *sr = c.buf(32), *t = c.buf(32), *u = c.buf(32); int x, y, z;
+    { LibScope l; crypto_core_ristretto255_from_hash(p, h1); crypto_core_ristretto255_from_hash(q, h2); x = crypto_core_ristretto255_add(r, p, q); y = crypto_core_ristretto255_sub(t, r, q);
+      crypto_core_ristretto255_scalar_reduce(sr, a); z = crypto_scalarmult_ristretto255_base(u, sr); }
+    c.emit(r, 32); c.emit(t, 32); c.emit(u, 32); c.emit(x * 4 + y * 2 + z);
+}
+OP(ed25519_point_arith) {
+    unsigned char *h1 = c.input(32), *h2 = c.input(32), *p = c.buf(32), *q = c.buf(32), *r = c.buf(32), *t = c.buf(32), *s1 = c.input(32), *n1 = c.buf(32), *c1 = c.buf(32); int x, y, v;
+    { LibScope l; crypto_core_ed25519_from_uniform(p, h1); crypto_core_ed25519_from_uniform(q, h2); x = crypto_core_ed25519_add(r, p, q); y = crypto_core_ed25519_sub(t, r, q); v = crypto_core_ed25519_is_valid_point(t);
+      crypto_core_ed25519_scalar_negate(n1, s1); crypto_core_ed25519_scalar_complement(c1, s1); }
+    c.emit(r, 32); c.emit(t, 32); c.emit(n1, 32); c.emit(c1, 32); c.emit(x * 4 + y * 2 + v);
+}
+OP(verify_and_hex) {
+    unsigned char *a = c.input(64), *b = c.buf(64); char *hex = (char *) c.buf(129); int v16, v32, v64;
+    memcpy(b, a, 64); if (c.in.chance(1, 2)) b[c.in.below(64)] ^= 1;
+    { LibScope l; v16 = crypto_verify_16(a, b); v32 = crypto_verify_32(a, b); v64 = crypto_verify_64(a, b); sodium_bin2hex(hex, 129, a, 64); sodium_stackzero(256); }
+    c.emit(v16 * 4 + v32 * 2 + v64); c.emit(hex, 128);
+}
+OP(secretstream_rekey) {
+    size_t n = c.in.below(100); unsigned char *m = c.input(n), *k = c.input(32), *hdr = c.buf(24), *ct = c.buf(n + 17), *ct2 = c.buf(n + 17), *d = c.buf(n); int v;
+    crypto_secretstream_xchacha20poly1305_state *st = (crypto_secretstream_xchacha20poly1305_state *) c.buf(sizeof(crypto_secretstream_xchacha20poly1305_state)), *st2 = (crypto_secretstream_xchacha20poly1305_state *) c.buf(sizeof(crypto_secretstream_xchacha20poly1305_state));
+    { LibScope l; crypto_secretstream_xchacha20poly1305_init_push(st, hdr, k); crypto_secretstream_xchacha20poly1305_push(st, ct, nullptr, m, n, nullptr, 0, 2); crypto_secretstream_xchacha20poly1305_rekey(st);
+      crypto_secretstream_xchacha20poly1305_push(st, ct2, nullptr, m, n, nullptr, 0, 0);
+      crypto_secretstream_xchacha20poly1305_init_pull(st2, hdr, k); crypto_secretstream_xchacha20poly1305_pull(st2, d, nullptr, nullptr, ct, n + 17, nullptr, 0); crypto_secretstream_xchacha20poly1305_rekey(st2);
+      v = crypto_secretstream_xchacha20poly1305_pull(st2, d, nullptr, nullptr, ct2, n + 17, nullptr, 0); }
+    c.emit(hdr, 24); c.emit(ct2, n + 17); c.emit(v);
+}
+OP(deterministic_rng) { size_t n = c.in.below(700); unsigned char *seed = c.input(32), *o = c.buf(n); { LibScope l; randombytes_buf_deterministic(o, n, seed); } c.emit(o, n); }
+OP(scrypt_str) {
+    char *s = (char *) c.buf(crypto_pwhash_scryptsalsa208sha256_STRBYTES); const char *pw = "scrypt pw"; int r, v, nr;
+    { LibScope l; r = crypto_pwhash_scryptsalsa208sha256_str(s, pw, strlen(pw), crypto_pwhash_scryptsalsa208sha256_OPSLIMIT_MIN, crypto_pwhash_scryptsalsa208sha256_MEMLIMIT_MIN);
+      v = crypto_pwhash_scryptsalsa208sha256_str_verify(s, pw, strlen(pw)); nr = crypto_pwhash_scryptsalsa208sha256_str_needs_rehash(s, crypto_pwhash_scryptsalsa208sha256_OPSLIMIT_MIN, crypto_pwhash_scryptsalsa208sha256_MEMLIMIT_MIN); }
+    c.emit(s, strlen(s)); c.emit(r * 100 + v * 10 + nr);
+}
+OP(kdf_hkdf_state) {
+    size_t n = c.in.below(120), cut = c.in.below(n + 1); unsigned char *ikm = c.input(n), *salt = c.input(20), *prk = c.buf(32);
+    crypto_kdf_hkdf_sha256_state *st = (crypto_kdf_hkdf_sha256_state *) c.buf(sizeof(crypto_kdf_hkdf_sha256_state));
+    { LibScope l; crypto_kdf_hkdf_sha256_extract_init(st, salt, 20); crypto_kdf_hkdf_sha256_extract_update(st, ikm, cut); crypto_kdf_hkdf_sha256_extract_update(st, ikm + cut, n - cut); crypto_kdf_hkdf_sha256_extract_final(st, prk); }
+    c.emit(prk, 32);
+}
+
 // the constant-time helpers on caller buffers that END EXACTLY at an inaccessible page (guarded allocations of the
 // exact size): an access past the end -- also one made from inline assembly, which no instrumentation sees -- faults
 OP(helpers_on_guarded_buffers) {
@@ -565,6 +639,9 @@ const OpDesc OPS[] = {
     {"sign_convert", op_sign_convert}, {"sign_combined", op_sign_combined}, {"ed25519_scalars", op_ed25519_scalars}, {"ristretto_hash", op_ristretto_hash}, {"h2c", op_h2c},
     {"pwhash_str_argon2i", op_pwhash_str_argon2i}, {"base64_variants", op_base64_variants}, {"kx_server", op_kx_server},
     {"helpers_on_guarded_buffers", op_helpers_on_guarded_buffers},
+    {"aegis_detached", op_aegis_detached}, {"xchacha_detached", op_xchacha_detached}, {"stream_xor_ic", op_stream_xor_ic}, {"salsa20_xor_ic", op_salsa20_xor_ic}, {"box_detached", op_box_detached},
+    {"sign_ed25519ph", op_sign_ed25519ph}, {"ristretto_arith", op_ristretto_arith}, {"ed25519_point_arith", op_ed25519_point_arith}, {"verify_and_hex", op_verify_and_hex},
+    {"secretstream_rekey", op_secretstream_rekey}, {"deterministic_rng", op_deterministic_rng}, {"scrypt_str", op_scrypt_str}, {"kdf_hkdf_state", op_kdf_hkdf_state},
     {"aes256gcm_shared_state", op_aes256gcm_shared_state}, {"box_afternm_shared", op_box_afternm_shared},
 };
 const size_t NOPS = sizeof OPS / sizeof OPS[0];
@@ -701,7 +778,7 @@ struct C19 {
     static const char *name() { return "c19_threads"; }
     static const char *level() { return "exploration"; }
     static const char *rule() {
-        return "seeded plans: N in 2..16 real threads, each calling sodium_init() and then 0-12 operations drawn from a 71-entry table covering every API family (no barrier "
+        return "seeded plans: N in 2..16 real threads, each calling sodium_init() and then 0-12 operations drawn from an 84-entry table covering every API family (no barrier "
                "between init and workload), under RNG configuration {default sysrandom over simulated getrandom, internal, scripted} and lock variant " C19_LOCK_VARIANT
                ". Exactly one thread is runnable at a time; a seeded scheduler (random walk / PCT depth 1-4 / loser-first / coarse) decides at every instrumented access to "
                "tracked memory, every lock/unlock, atomic and wrapped system call. Oracles: own vector-clock happens-before race detector over the TSan compiler ABI "
@@ -750,6 +827,7 @@ struct C19 {
                     const char *nm = RNG_HEAVY[o.below(sizeof RNG_HEAVY / sizeof RNG_HEAVY[0])];
                     for (size_t q = 0; q < NOPS; q++) if (!strcmp(OPS[q].name, nm)) op.op = (int) q;
                 } else op.op = (int) o.below(NOPS);
+                if (!strcmp(OPS[(size_t) op.op].name, "scrypt_str") && !o.chance(1, 5)) op.op = (int) o.below(NOPS - 2); // 1 MiB of tracked memory per call: keep it rare
                 bool is_shared = !strncmp(OPS[(size_t) op.op].name + (strlen(OPS[(size_t) op.op].name) > 6 ? 0 : 0), "aes256gcm_shared", 16) || !strcmp(OPS[(size_t) op.op].name, "box_afternm_shared");
                 if (is_shared && !p.preinit) op.op = (int) o.below(NOPS - 2); // shared read-only objects exist only in pre-initialised plans
                 if (p.preinit && o.chance(1, 4)) { op.op = (int) (NOPS - 2 + o.below(2)); }
